@@ -171,6 +171,25 @@ func (c *Ctx) returnsOwnTable(v ssa.Value, fn *ssa.Function) bool {
 // keysComparedBefore: on every path to b lies the exit of a range loop over the receiver's own table in whose body the
 // ID of the entry is compared with the key, the mismatch leaving the function.
 func (c *Ctx) keysComparedBefore(fn *ssa.Function, b *ssa.BasicBlock, ownTable func(ssa.Value) bool) string {
+	// the check may live in a method of the same receiver that is called on the way and panics on a mismatch
+	for _, cb := range fn.Blocks {
+		if !(cb == b || cb.Dominates(b)) {
+			continue
+		}
+		for _, in := range cb.Instrs {
+			call, ok := in.(*ssa.Call)
+			if !ok {
+				continue
+			}
+			g := call.Call.StaticCallee()
+			if g == nil || g == fn || len(g.Blocks) == 0 || len(g.Params) == 0 || len(call.Call.Args) == 0 || call.Call.Args[0] != ssa.Value(fn.Params[0]) {
+				continue
+			}
+			if c.panicsOnMisfiledEntry(g) {
+				return "behind a call of " + c.M.Key(g) + ", which walks the same table, compares every entry's ID() with its key and panics on a mismatch"
+			}
+		}
+	}
 	for _, l := range c.findMapLoops(c.M, fn) {
 		if l.kind != "range" || !l.hasBackEdge || !ownTable(l.mapVal) {
 			continue
@@ -774,6 +793,62 @@ func madeByClient(ch ssa.Value) bool {
 		}
 	case *ssa.ChangeType:
 		return madeByClient(x.X)
+	}
+	return false
+}
+
+// panicsOnMisfiledEntry: g ranges over a map[string]*ObjectSchema field of its receiver, compares the entry's ID() with
+// the key, and the mismatch ends in a panic.
+func (c *Ctx) panicsOnMisfiledEntry(g *ssa.Function) bool {
+	for _, l := range c.findMapLoops(c.M, g) {
+		if l.kind != "range" || !l.hasBackEdge || !reachedFrom(l.mapVal, g.Params[0], 0) {
+			continue
+		}
+		mt, ok := l.mapVal.Type().Underlying().(*types.Map)
+		if !ok || !isNamedPtr(mt.Elem(), "ObjectSchema") {
+			continue
+		}
+		for lb := range l.blocks {
+			iff, ok := lb.Instrs[len(lb.Instrs)-1].(*ssa.If)
+			if !ok {
+				continue
+			}
+			bin, ok := iff.Cond.(*ssa.BinOp)
+			if !ok || (bin.Op != token.NEQ && bin.Op != token.EQL) {
+				continue
+			}
+			fromNext := func(v ssa.Value, idx int) bool {
+				ex, ok := core.Unwrap(v).(*ssa.Extract)
+				if !ok || ex.Index != idx {
+					return false
+				}
+				nx, ok := ex.Tuple.(*ssa.Next)
+				return ok && nx.Block() == l.header
+			}
+			isID := func(v ssa.Value) bool {
+				call, ok := core.Unwrap(v).(*ssa.Call)
+				if !ok {
+					return false
+				}
+				if call.Call.IsInvoke() {
+					return call.Call.Method.Name() == "ID" && fromNext(call.Call.Value, 2)
+				}
+				sc := call.Call.StaticCallee()
+				return sc != nil && sc.Name() == "ID" && len(call.Call.Args) == 1 && fromNext(call.Call.Args[0], 2)
+			}
+			if !((fromNext(bin.X, 1) && isID(bin.Y)) || (fromNext(bin.Y, 1) && isID(bin.X))) {
+				continue
+			}
+			mismatch := lb.Succs[0]
+			if bin.Op == token.EQL {
+				mismatch = lb.Succs[1]
+			}
+			if len(mismatch.Succs) == 0 {
+				if _, isPanic := mismatch.Instrs[len(mismatch.Instrs)-1].(*ssa.Panic); isPanic {
+					return true
+				}
+			}
+		}
 	}
 	return false
 }
